@@ -1,7 +1,235 @@
-import Atomman.Prelude
-open Atomman
+import Atomman.C06
+open Atomman Atomman.C06
 
-/-- stub: replaced when the C06 model is built. -/
-def handleC06 (_toks : List String) : String := err "op"
+/-!
+  Line protocol of the C06 driver (stateful):
+    reset                               → ok
+    op <operation tokens>               → ok … | err:<class>
+    dump <n> <obj ids…> <m> <sys ids…>  → canonical dump of the listed live objects + sharing pairs
+  Operands: values `V <dt> <ndim> <dims…> <cells…>` (dt `i f b s<w>`; cells int, p/q, 0/1, `_chars`),
+  indices `I i`, `S a b c` (`.` = None), `L n i…`, `K n b…`; `.` = argument absent.
+-/
 
-def main : IO Unit := runDriver handleC06
+namespace C06Drv
+
+abbrev P (α : Type) := List String → Option (α × List String)
+
+def tok : P String
+  | [] => none
+  | t :: ts => some (t, ts)
+
+def pNat : P Nat := fun ts => match ts with
+  | t :: r => t.toNat?.map (·, r)
+  | [] => none
+
+def pInt : P Int := fun ts => match ts with
+  | t :: r => t.toInt?.map (·, r)
+  | [] => none
+
+def pRat : P Rat := fun ts => match ts with
+  | t :: r => (parseRat? t).map (·, r)
+  | [] => none
+
+def pBool : P Bool := fun ts => match ts with
+  | t :: r => (parseBool? t).map (·, r)
+  | [] => none
+
+def pOpt {α : Type} (p : P α) : P (Option α) := fun ts => match ts with
+  | "." :: r => some (none, r)
+  | _ => (p ts).map (fun (a, r) => (some a, r))
+
+def pMany {α : Type} (p : P α) : Nat → P (List α)
+  | 0 => fun ts => some ([], ts)
+  | k + 1 => fun ts => match p ts with
+    | none => none
+    | some (a, r) => match pMany p k r with
+      | none => none
+      | some (as, r') => some (a :: as, r')
+
+def pCounted {α : Type} (p : P α) : P (List α) := fun ts => match pNat ts with
+  | none => none
+  | some (n, r) => pMany p n r
+
+def pDType : P DType := fun ts => match ts with
+  | "i" :: r => some (.int, r)
+  | "f" :: r => some (.flt, r)
+  | "b" :: r => some (.bool, r)
+  | t :: r => if t.startsWith "s" then ((t.drop 1).toString.toNat?).map (fun w => (DType.str w, r)) else none
+  | [] => none
+
+def pCell (dt : DType) : P Cell := fun ts => match dt, ts with
+  | .int, t :: r => t.toInt?.map (fun i => (Cell.int i, r))
+  | .flt, t :: r => (parseRat? t).map (fun q => (Cell.flt q, r))
+  | .bool, t :: r => (parseBool? t).map (fun b => (Cell.bool b, r))
+  | .str _, t :: r => if t.startsWith "_" then some (Cell.str (t.toList.drop 1), r) else none
+  | _, [] => none
+
+def pVal : P Val := fun ts => match ts with
+  | "V" :: r => match pDType r with
+    | none => none
+    | some (dt, r1) => match pCounted pNat r1 with
+      | none => none
+      | some (shape, r2) => match pMany (pCell dt) (prod shape) r2 with
+        | none => none
+        | some (cells, r3) => some (⟨dt, shape, cells⟩, r3)
+  | _ => none
+
+def pIndex : P Index := fun ts => match ts with
+  | "I" :: r => (pInt r).map (fun (i, r') => (Index.int i, r'))
+  | "S" :: r => match pOpt pInt r with
+    | none => none
+    | some (a, r1) => match pOpt pInt r1 with
+      | none => none
+      | some (b, r2) => match pOpt pInt r2 with
+        | none => none
+        | some (c, r3) => some (Index.slice a b c, r3)
+  | "L" :: r => (pCounted pInt r).map (fun (l, r') => (Index.list l, r'))
+  | "K" :: r => (pCounted pBool r).map (fun (l, r') => (Index.mask l, r'))
+  | _ => none
+
+def pSym : P (Option String) := fun ts => match ts with
+  | "~" :: r => some (none, r)
+  | t :: r => if t.startsWith "_" then some (some (t.drop 1).toString, r) else none
+  | [] => none
+
+def pMass : P (Option Rat) := fun ts => match ts with
+  | "~" :: r => some (none, r)
+  | t :: r => (parseRat? t).map (fun q => (some q, r))
+  | [] => none
+
+def pKeyVal : P (String × Val) := fun ts => match ts with
+  | k :: r => (pVal r).map (fun (v, r') => ((k, v), r'))
+  | [] => none
+
+def pBox : P (Box Rat) := fun ts => match pMany pRat 12 ts with
+  | some ([a, b, c, d, e, f, g, h, i, x, y, z], r) => some (⟨⟨⟨a, b, c⟩, ⟨d, e, f⟩, ⟨g, h, i⟩⟩, ⟨x, y, z⟩⟩, r)
+  | _ => none
+
+instance : Monad P where
+  pure a := fun ts => some (a, ts)
+  bind m f := fun ts => match m ts with
+    | none => none
+    | some (a, r) => f a r
+
+def pOp : P Op := fun ts => match ts with
+  | "new" :: r => (do
+      let n ← pOpt pInt; let a ← pOpt pVal; let p ← pOpt pVal; let ex ← pCounted pKeyVal
+      pure (Op.new n a p ex) : P Op) r
+  | "setv" :: r => (do let o ← pNat; let k ← tok; let v ← pVal; pure (Op.setView o k v) : P Op) r
+  | "pget" :: r => (do let o ← pNat; let k ← tok; let ix ← pOpt pIndex; pure (Op.propGet o k ix) : P Op) r
+  | "pkeys" :: r => (do let o ← pNat; pure (Op.propKeys o) : P Op) r
+  | "pgeta" :: r => (do let o ← pNat; let ix ← pIndex; pure (Op.propGetAtoms o ix) : P Op) r
+  | "pset" :: r => (do
+      let o ← pNat; let k ← tok; let ix ← pOpt pIndex; let v ← pVal
+      pure (Op.propSet o k ix v) : P Op) r
+  | "pseta" :: r => (do
+      let o ← pNat; let ix ← pOpt pIndex; let src ← pNat
+      pure (Op.propSetAtoms o ix src) : P Op) r
+  | "geti" :: r => (do let o ← pNat; let ix ← pIndex; pure (Op.getItem o ix) : P Op) r
+  | "seti" :: r => (do let o ← pNat; let ix ← pIndex; let src ← pNat; pure (Op.setItem o ix src) : P Op) r
+  | "patype" :: r => (do
+      let o ← pNat; let k ← tok; let v ← pVal; let t ← pOpt pInt
+      pure (Op.propAtype o k v t) : P Op) r
+  | "exti" :: r => (do let o ← pNat; let n ← pInt; pure (Op.extendInt o n) : P Op) r
+  | "exta" :: r => (do let o ← pNat; let d ← pNat; pure (Op.extendAtoms o d) : P Op) r
+  | "dcopy" :: r => (do let o ← pNat; pure (Op.deepcopy o) : P Op) r
+  | "natypes" :: r => (do let o ← pNat; pure (Op.natypes o) : P Op) r
+  | "mksys" :: r => (do
+      let o ← pNat; let box ← pBox; let pbc ← pCounted pBool
+      let sy ← pOpt (pCounted pSym); let ms ← pOpt (pCounted pMass)
+      pure (Op.mkSys o box pbc sy ms) : P Op) r
+  | "symget" :: r => (do let i ← pNat; pure (Op.symbolsGet i) : P Op) r
+  | "symset" :: r => (do let i ← pNat; let l ← pCounted pSym; pure (Op.symbolsSet i l) : P Op) r
+  | "massget" :: r => (do let i ← pNat; pure (Op.massesGet i) : P Op) r
+  | "massset" :: r => (do let i ← pNat; let l ← pCounted pMass; pure (Op.massesSet i l) : P Op) r
+  | "pbcset" :: r => (do let i ← pNat; let l ← pCounted pBool; pure (Op.pbcSet i l) : P Op) r
+  | "snatypes" :: r => (do let i ← pNat; pure (Op.sysNatypes i) : P Op) r
+  | "spget" :: r => (do let i ← pNat; let k ← tok; let ix ← pOpt pIndex; pure (Op.sysPropGet i k ix) : P Op) r
+  | "spgeta" :: r => (do let i ← pNat; let ix ← pIndex; pure (Op.sysPropGetAtoms i ix) : P Op) r
+  | "spset" :: r => (do
+      let i ← pNat; let k ← tok; let ix ← pOpt pIndex; let sc ← pBool; let v ← pVal
+      pure (Op.sysPropSet i k ix v sc) : P Op) r
+  | "spseta" :: r => (do
+      let i ← pNat; let ix ← pOpt pIndex; let sc ← pBool; let src ← pNat
+      pure (Op.sysPropSetAtoms i ix src sc) : P Op) r
+  | "sext" :: "i" :: r => (do
+      let i ← pNat; let n ← pInt; let sc ← pBool; let sy ← pOpt (pCounted pSym)
+      pure (Op.sysExtend i (.inl n) sc sy) : P Op) r
+  | "sext" :: "a" :: r => (do
+      let i ← pNat; let d ← pNat; let sc ← pBool; let sy ← pOpt (pCounted pSym)
+      pure (Op.sysExtend i (.inr d) sc sy) : P Op) r
+  | "ixget" :: r => (do let i ← pNat; let ix ← pIndex; pure (Op.ixGet i ix) : P Op) r
+  | "ixset" :: "a" :: r => (do let i ← pNat; let ix ← pIndex; let o ← pNat; pure (Op.ixSet i ix (.inl o)) : P Op) r
+  | "ixset" :: "s" :: r => (do let i ← pNat; let ix ← pIndex; let j ← pNat; pure (Op.ixSet i ix (.inr j)) : P Op) r
+  | _ => none
+
+/-! printing -/
+
+def showDType : DType → String
+  | .int => "i" | .flt => "f" | .bool => "b" | .str w => "s" ++ toString w
+
+def showCell : Cell → String
+  | .int i => toString i
+  | .flt r => showRat r
+  | .bool b => showBool b
+  | .str s => "_" ++ String.ofList s
+
+def showVal (v : Val) : String :=
+  " ".intercalate (["V", showDType v.dt, toString v.shape.length] ++ v.shape.map toString ++ v.data.map showCell)
+
+def showSym : Option String → String
+  | none => "~" | some s => "_" ++ s
+def showMass : Option Rat → String
+  | none => "~" | some m => showRat m
+
+def showErr : Err → String
+  | .value => "err:value" | .type => "err:type" | .index => "err:index" | .key => "err:key"
+  | .assert => "err:assert" | .format => "err:format" | .unmodelled => "err:unmodelled"
+
+def showOut : Out → String
+  | .unit => "ok"
+  | .obj o => s!"ok o {o}"
+  | .objSys o i => s!"ok os {o} {i}"
+  | .val v => "ok v " ++ showVal v
+  | .keys l => " ".intercalate (["ok", "k", toString l.length] ++ l)
+  | .nat n => s!"ok n {n}"
+  | .syms l => " ".intercalate (["ok", "y", toString l.length] ++ l.map showSym)
+  | .masses l => " ".intercalate (["ok", "w", toString l.length] ++ l.map showMass)
+
+def pairsShared (s : State) : List (Nat × Arr) → List String
+  | [] => []
+  | (i, a) :: rest =>
+    (rest.filterMap (fun (j, b) => if sharesMem s a b then some s!"{i}-{j}" else none)) ++ pairsShared s rest
+
+def dump (s : State) (objs syss : List Nat) : String :=
+  let objParts := objs.map (fun o =>
+    let ob := s.obj o
+    " ".intercalate ([s!"O {o} {ob.natoms} {ob.props.length}"] ++
+      ob.props.map (fun p => p.key ++ " " ++ showVal (arrVal s p.arr))))
+  let sysParts := syss.map (fun i =>
+    let y := s.sys i
+    " ".intercalate (["Y", toString i, toString y.atoms, toString y.pbc.length] ++ y.pbc.map showBool ++
+      [toString y.symbols.length] ++ y.symbols.map showSym ++ [toString y.masses.length] ++ y.masses.map showMass))
+  let arrs := (objs.map (fun o => (s.obj o).props.map (·.arr))).flatten
+  let numbered := (List.range arrs.length).zip arrs
+  let sh := pairsShared s numbered
+  " ".intercalate (objParts ++ sysParts ++ [s!"SH {sh.length}"] ++ sh)
+
+def handle (s : State) (toks : List String) : State × String :=
+  match toks with
+  | ["reset"] => (init, "ok")
+  | "op" :: rest =>
+    match pOp rest with
+    | some (op, []) =>
+      let r := stepWith false s op
+      (r.2, match r.1 with | .ok out => showOut out | .error e => showErr e)
+    | _ => (s, err "format")
+  | "dump" :: rest =>
+    match (do let os ← pCounted pNat; let ys ← pCounted pNat; pure (os, ys) : P (List Nat × List Nat)) rest with
+    | some ((os, ys), []) => (s, dump s os ys)
+    | _ => (s, err "format")
+  | _ => (s, err "op")
+
+end C06Drv
+
+def main : IO Unit := runDriverS C06Drv.handle init
